@@ -139,6 +139,10 @@ def _convert_internal_expression_to_pddl(
         if comp:
             components.append(comp)
 
+        elif operator == "*":
+            # a factor that is rounded to zero makes the whole product zero, it cannot simply be left out.
+            return None
+
     nested_expression = ""
     for component in reversed(components):
         if nested_expression:
@@ -151,7 +155,7 @@ def _convert_internal_expression_to_pddl(
         else:
             nested_expression = component
 
-    return nested_expression
+    return nested_expression if nested_expression else None
 
 
 def convert_expr_to_pddl(
@@ -169,13 +173,15 @@ def convert_expr_to_pddl(
     :return: the PDDL expression.
     """
     initial_operator = SYMPY_OP_TO_PDDL_OP.get(expr.func, "")
-    return _convert_internal_expression_to_pddl(
+    pddl_expression = _convert_internal_expression_to_pddl(
         expr,
         initial_operator,
         {val: key for key, val in symbolic_vars.items()},
         decimal_digits=decimal_digits,
         should_remove_trailing_zeros=should_remove_trailing_zeros,
     )
+    # an expression whose terms were all rounded to zero is the numeral zero.
+    return pddl_expression if pddl_expression is not None else "0"
 
 
 def transform_expression(
